@@ -419,7 +419,7 @@ def within_worker(mode='dedicated', props=None):
             obl.append(Obl('C13/%s/each_wait_is_a_blocking_get_bounded_by_one_second' % U, 'C13', s,
                            z3.And(z3.BoolVal(len(ga) == 2), truthy(ga[0]), is_num(ga[1]), num(ga[1]) <= 1, num(ga[1]) > 0) if len(ga) == 2 else z3.BoolVal(False), oc))
         if oc[0] == 'return':
-            obl.append(Obl('C08/%s/ret/result_is_for_this_recording' % U, 'C08', s,
+            obl.append(Obl('C08/%s/ret/result_is_for_this_recording' % U, ('C08', 'C19'), s,
                            z3.Or(*[z3.And(oc[1] == r, t == rid) for r, t in s.g['tagof']]) if s.g['tagof'] else z3.BoolVal(False), oc))
             obl.append(Obl('C08/%s/ret/queues_clean_for_next_dispatch' % U, ('C08', 'C13'), s, z3.And(clean, INV(s), s.rd(selfv, '_compare_process') != NONE), oc))
             obl.append(Obl('C13/%s/ret/age_within_recycle_rate' % U, 'C13', s, z3.And(a1 >= 1, a1 <= rate), oc))
@@ -439,7 +439,7 @@ def within_worker(mode='dedicated', props=None):
                            z3.Implies(z3.BoolVal(any(ev[0] == 'put' for ev in s.events) and not s.g['tagof']), forgot), oc))
             if s.g['tagof']:
                 # the worker answered "failed": that failure is this recording's (tag), the worker stays in service
-                obl.append(Obl('C08/%s/exc/reported_failure_is_for_this_recording' % U, 'C08', s, z3.And(s.g['tagof'][-1][1] == rid, z3.Not(forgot)), oc))
+                obl.append(Obl('C08/%s/exc/reported_failure_is_for_this_recording' % U, ('C08', 'C19'), s, z3.And(s.g['tagof'][-1][1] == rid, z3.Not(forgot)), oc))
             reads = s.g.get('clock_reads', [])
             if s.g.get('loop_exit_by_guard') and len(reads) >= 2:
                 obl.append(Obl('C13/%s/exc/timeout_reported_only_after_the_configured_time' % U, 'C13', s, reads[-1] - reads[0] > num(tmo), oc))
